@@ -425,6 +425,20 @@ C02Prop == [][("trig" \in DOMAIN last' /\ "l" \in DOMAIN last') =>
                /\ \A u \in T : \A t \in Act(defs', reg') : Reported(defs', u, t) => t \in T
                /\ \A t \in Act(defs', reg') : TDeps(defs', t) \cap Chain(last'.l) # {} => t \in T]_vars
 
+(* Frozen episodes (C17: "after unfreeze_tree() the manager behaves as if it had never been frozen").  In a state   *)
+(* where re-assigning its current value to an undefined leaf l re-runs the triggered tasks to the same contents,  *)
+(* the three calls  freeze_tree(); l = <current value>; unfreeze_tree()  compose to the identity on State.  The   *)
+(* harness inserts such episodes into the replayed paths; EpSafe says where the specification guarantees that.   *)
+RECURSIVE Topo(_, _)
+Topo(D, T) == IF T = {} THEN <<>>          \* one allowed order (true data flow is acyclic: AcyclicInv); all agree (Update asserts confluence)
+              ELSE LET t == CHOOSE x \in T : \A u \in T : u # x => ~Produces(D, u, x) IN <<t>> \o Topo(D, T \ {t})
+EpSafe == IF ~(Extras /\ EmitIdx) \/ TLCGet("config").mode # "bfs" \/ frozen \/ ghost # {} THEN {}
+          ELSE {l \in Leaf : /\ defs[l] = NoDef
+                             /\ LET T == Triggered(defs, reg, l) IN
+                                /\ ~StructCyclic(defs, T)
+                                /\ RunSeq(defs, [m |-> mem, kp |-> kprev], Topo(defs, T)) = [m |-> mem, kp |-> kprev]}
+
 (* emission for the conformance harness: every generated transition, source and target state in full *)
-Emit == PrintT(ToJson(<<"TR", State, last', State'>>))
+(* (EpSafe is only needed for states that are the source of an emitted transition, i.e. not for the last layer)    *)
+Emit == PrintT(ToJson(<<"TR", State, last', State', IF depth' < MaxDepth THEN AsSeq(EpSafe') ELSE <<>> >>))
 =============================================================================
